@@ -179,7 +179,6 @@ theorem schema_spec_up (g : Globals) (hg : g.dialect = .mysql) (hio : g.ignoreOr
     (heo : execAll rc [] old = some dbO) (hen : execAll rc [] new = some dbN)
     (hdef : ∀ tb ∈ dbO ++ dbN, tb.name ≠ Migration.defaultMigrationTable)
     (hnofk : ∀ tb ∈ dbO ++ dbN, tb.fks = [])
-    (hncm : ∀ tb ∈ dbO ++ dbN, ∀ c ∈ tb.cols, ∀ k ∈ c.opts, k.noComment = true)
     (hboth : ∀ tbO ∈ dbO, ∀ tbN ∈ dbN, tbO.name = tbN.name →
       Abs.OrderCompatible tbN.colNames tbO.colNames ∧ (∀ n ∈ tbN.colNames ++ tbO.colNames, n ≠ "") ∧ tbO.pk = tbN.pk ∧
       (∀ dc : List String, (∀ c ∈ dc, c ∉ tbN.colNames) →
@@ -232,8 +231,7 @@ theorem schema_spec_up (g : Globals) (hg : g.dialect = .mysql) (hio : g.ignoreOr
         have hnO : tbO.name = td.name := find_name dbO _ _ hfO
         obtain ⟨hcmp, hne, hpk, hred⟩ := hboth tbO (mem_of_find hfO) tbN (mem_of_find hfN) (hnO.trans hnN.symm)
         obtain ⟨td', htd', hn', cs, dc, is, hcs, his, hrun⟩ := table_spec_up_any g hg hio rc old new dbO dbN ho hn hpo hpn heo hen d hd
-          td.name tbO tbN hfO hfN hcmp hne (hncm tbO (List.mem_append_left _ (mem_of_find hfO)))
-          (hncm tbN (List.mem_append_right _ (mem_of_find hfN))) hpk hred
+          td.name tbO tbN hfO hfN hcmp hne hpk hred
         have := huniq td' htd' td htd hn'
         subst this
         -- no foreign-key statement: neither side has a key
